@@ -191,6 +191,55 @@ def replay_handshake(cfgs):
     return res
 
 
+def record_localization(nfits, seed):
+    """Run real SparseKDE fits (fpoints mode) with the localisation search wrapped; one record per grid point."""
+    import skmatter.neighbors._sparsekde as M
+    from checks import c17
+    rng = np.random.default_rng([seed, 1717])
+    recs = []
+    state = {"cur": None}
+    orig_lp = M._local_population
+    orig_tune = M.SparseKDE._tune_localization_factor_based_on_fraction_of_points
+
+    def lp(cell, gj, gi, w, s2):
+        out = orig_lp(cell, gj, gi, w, s2)
+        if state["cur"] is not None:
+            state["cur"]["q"].append((float(s2), float(out[1])))
+        return out
+
+    def tune_(self, X, sw, sigma2, flocal, idx, delta, tune):
+        cur = {"q": [(float(sigma2[idx]), float(flocal[idx]))], "tune": float(tune), "w0": float(sw[idx]), "fpoints": float(self.fpoints),
+               "nsamples": int(self.nsamples), "delta": float(delta)}
+        state["cur"] = cur
+        try:
+            return orig_tune(self, X, sw, sigma2, flocal, idx, delta, tune)
+        finally:
+            state["cur"] = None
+            recs.append(cur)
+
+    M._local_population = lp
+    M.SparseKDE._tune_localization_factor_based_on_fraction_of_points = tune_
+    fits = 0
+    try:
+        t = 0
+        while fits < nfits and t < nfits * 4:
+            t += 1
+            c = c17.case("loc%d" % t, rng)       # the generator of C17 (fits inside); only fpoints-mode fits produce records
+            if c is not None and c.get("fspread", -1) < 0:
+                fits += 1
+    finally:
+        M._local_population = orig_lp
+        M.SparseKDE._tune_localization_factor_based_on_fraction_of_points = orig_tune
+    P, U = 2 ** 29, 2 ** 20
+    cases = []
+    for i, r in enumerate(recs):
+        ratios = [q[0] / r["tune"] * U for q in r["q"]]
+        deep = len(r["q"]) > 60 or any(abs(x - round(x)) > 1e-3 for x in ratios)
+        cases.append({"id": "L%d" % i, "s": [int(round(x)) for x in ratios], "f": [int(round(q[1] * P)) for q in r["q"]], "w0": int(round(r["w0"] * P)),
+                      "fpoints": int(round(r["fpoints"] * P)), "nsamples": r["nsamples"], "deep": bool(deep)})
+    return cases, fits
+
+
 def run(tier):
     r = core.run_tlc("Validation.tla", cfg="mc/Validation.cfg", workers=1)
     if r["error"]:
@@ -212,6 +261,23 @@ def run(tier):
         print("extras: %s %d configurations: %d agree, %d disagree" % (name, len(c2), rr["agree"], len(rr["disagree"])))
         for d in rr["disagree"][:6]:
             print("  DISAGREE", d)
+    loc = {}
+    for name, expect in (("gentle", None), ("steep", "NoExhaustion")) + ((("gentle_big", None),) if tier == "thorough" else ()):
+        r3 = core.run_tlc("Localization.tla", cfg="mc/Localization_%s.cfg" % name, workers=core.NCPU, timeout=3600)
+        viol = r3.get("violated") or ""
+        ok3 = (expect is None and not r3["error"]) or (expect is not None and expect in (viol + " " + str(r3["error"])))
+        loc[name] = {"distinct_states": r3["distinct"], "expected": expect or "no violation", "as_expected": bool(ok3), "error": r3["error"]}
+        print("extras: Localization model %s: %d distinct states, %s" % (name, r3["distinct"], "as expected" if ok3 else "UNEXPECTED: %s" % r3["error"]))
+    out["sparsekde_localisation_model"] = loc
+    cases, fits = record_localization(40 if tier == "quick" else 400, core.seed())
+    verdicts, stats = core.validate_cases("trace/TraceLocalization.tla", cases, chunks=core.NCPU)
+    tally = {}
+    for v in verdicts.values():
+        kk = v["v"][0] if v["v"][0] != "rejected" else "rejected:" + v["v"][1]
+        tally[kk] = tally.get(kk, 0) + 1
+    out["sparsekde_localisation_search"] = {"fits": fits, "searches_recorded": len(cases), "verdicts": tally,
+                                            "halvings_max": max([v["ctx"]["halvings"] for v in verdicts.values()] or [0])}
+    print("extras: sparsekde localisation search: %d fits, %d searches recorded, verdicts %s" % (fits, len(cases), tally))
     os.makedirs(core.OUT, exist_ok=True)
     json.dump(out, open(os.path.join(core.OUT, "extras.json"), "w"), indent=1)
     print("extras: validation table %d configurations x 4 classes: %d agree, %d disagree (reported in out/extras.json, not an alarm)"
